@@ -113,6 +113,11 @@ void harness(void)
             CHECK(tok >= buf && tok < buf + dmax0, "C14: token outside the original dmax");
             continue;
         }
+        if (dn > STRTOK_DELIM_MAX_LEN) {
+            /* documented limit of the delimiter string: must be reported, once */
+            CHECK(tok == NULL && g_hcalls == 1, "C14/C05: delimiter set longer than STRTOK_DELIM_MAX_LEN is not reported as a constraint violation");
+            break;
+        }
         /* ---- reference step */
         size_t t = p; while (t < slen && is_delim(m[t], D, dn)) t++;
         size_t exp_tok = (size_t)-1, e = 0;
